@@ -10,12 +10,48 @@ Fixpoint lookup_lines (m : list (string * list string)) (p : string) : list stri
   match m with [] => [] | (q, l) :: r => if String.eqb p q then l else lookup_lines r p end.
 
 (* result as a byte-sorted list of "path|applies_in|applies_to" *)
-Definition eval_discover_v (hard rev_order : bool) (fs : list (string * N)) (contents : list (string * list string))
+Definition eval_discover_v (hard defer orig rev_order : bool) (fs : list (string * N)) (contents : list (string * list string))
            (origin : string) (watches explicit : list string) (excludes : option string) : string :=
   let fs' := map (fun e => (fst e, kind_of (snd e))) fs in
   let fs'' := if rev_order then rev fs' else fs' in
   show_list (fun x => x)
-    (sort_dedup (map show_dfile (from_origin gm_glob (lookup_lines contents) hard fs'' origin watches explicit excludes))).
+    (sort_dedup (map show_dfile (from_origin gm_glob (lookup_lines contents) hard defer orig fs'' origin watches explicit excludes))).
 
 (* the repaired code *)
-Definition eval_discover := eval_discover_v true.
+Definition eval_discover := eval_discover_v true true true.
+
+(* ---- closure check on a result list (the implementation's): with the filter those files make, every directory reachable from
+   the origin through directories that are not VCS metadata directories, are related to the watches and are not ignored by the
+   returned files above them has all its ignore files in the list, and no walk file of the list lies outside those directories *)
+Fixpoint chain (fuel : nat) (origin d : string) : list string :=
+  match fuel with
+  | O => []
+  | S f => if String.eqb d origin then []
+           else d :: match path_parent d with Some q => chain f origin q | None => [] end
+  end.
+
+Definition res_file := (string * option string * list string)%type.    (* path, applies_in, lines *)
+
+Definition eval_closed (fs : list (string * N)) (origin : string) (watches : list string) (res : list res_file) : string :=
+  let fs' := map (fun e => (fst e, kind_of (snd e))) fs in
+  let filt_excl (p : string) :=
+    filter_new origin (map (fun r => (snd (fst r), snd r))
+                           (filter (fun r => match snd (fst r) with Some a => negb (String.eqb a p) | None => true end) res)) in
+  let ok_dir (p : string) := negb (vcs_dir p) && watch_related watches p && check_dir gm_glob true (filt_excl p) p in
+  let is_dir (p : string) := match fs_get fs' p with Some KDir => true | _ => false end in
+  let open_dir (d : string) := is_under origin d && forallb (fun a => is_dir a && ok_dir a) (chain (S (String.length d)) origin d)
+                               && is_dir origin && watch_related watches origin in
+  let listed (p : string) (d : string) := existsb (fun r => String.eqb (fst (fst r)) p &&
+                                             match snd (fst r) with Some a => String.eqb a d | None => false end) res in
+  let missing := flat_map (fun e => match snd e with
+                                    | KDir => if open_dir (fst e)
+                                              then flat_map (fun nt => let p := join (fst e) (fst nt) in
+                                                                       if find_file fs' p && negb (listed p (fst e)) then ["missing:" ++ p] else [])
+                                                            dir_files
+                                              else []
+                                    | _ => [] end) fs' in
+  let extra := flat_map (fun r => match snd (fst r) with
+                                  | Some d => if existsb (fun nt => String.eqb (fst (fst r)) (join d (fst nt))) dir_files && negb (open_dir d)
+                                              then ["pruned:" ++ fst (fst r)] else []
+                                  | None => [] end) res in
+  show_list (fun x => x) (missing ++ extra).
